@@ -1,8 +1,13 @@
 /// Fixed size string to bytes.
 pub fn fixed_str_to_bytes<const MAX_LEN: usize>(name: &str) -> crate::Result<[u8; MAX_LEN]> {
     let bytes = name.as_bytes();
-    if bytes.len() > MAX_LEN {
+    // The reader requires a NUL terminator, so the name must be strictly shorter than `MAX_LEN`.
+    if bytes.len() >= MAX_LEN {
         return Err(crate::Error::custom("exceed max length limit"));
+    }
+    // An interior NUL would be read back as the end of the name.
+    if bytes.contains(&0) {
+        return Err(crate::Error::custom("invalid str"));
     }
     let mut buffer = [0; MAX_LEN];
     buffer[..bytes.len()].copy_from_slice(bytes);
